@@ -1,5 +1,6 @@
 import Drv.Util
 import BobEM.Model.Sched
+import BobEM.Model.Regroup
 open Lean BobEM.Sched Drv
 
 namespace Drv
@@ -13,4 +14,14 @@ def opSchedCheck (j : Json) : Json :=
   let conflict : Json := match firstConflict g with | none => Json.null | some (a, b) => Json.arr #[toJson a, toJson b]
   obj [("disciplined", toJson (disciplined g)), ("conflict", conflict), ("fan_in", toJson (fanIn g final workers)),
        ("isolation_ok", toJson (isolationOk g final (rdNatList (getJ j "shared")) (rdNatList (getJ j "copyback"))))]
+end Drv
+
+namespace Drv
+open BobEM.Regroup in
+/-- prepare_dask_input: regrouping of a partitioned bag (items named by naturals) into per-class lists -/
+def opPrepare (j : Json) : Json :=
+  let parts : List (List Nat) := (rdA (getJ j "partitions")).toList.map rdNatList
+  let y := rdNatList (getJ j "y")
+  let K := rdN (getJ j "K")
+  obj [("classes", toJson (prepare parts y K)), ("labels", toJson (labelLists y K))]
 end Drv
